@@ -247,8 +247,7 @@ Definition verdict (c : case) : list nat :=
   tag j 20 ++
   (* guards *)
   tag (derivs_free x) 201 ++ tag (int_key_free x) 203 ++
-  tag (obj_no_nan x) 205 ++ tag (graphs_ok x) 206 ++
-  tag (match x with OModel m => String.eqb (m_value_type strG m) "PREDICTION" | _ => true end) 223.
+  tag (obj_no_nan x) 205 ++ tag (graphs_ok x) 206.
 
 (* ------------------------------------------------------------------------------------------ *)
 (* two objects: ==, dictionaries, keys                                                        *)
@@ -398,13 +397,9 @@ Definition opyv_same (a b : option pyv) : bool :=
   match a, b with Some x, Some y => pyv_same x y | None, None => true | _, _ => false end.
 Definition has_path (r : results jtbl jtbl) : bool :=
   existsb (fun nf => match snd nf with FPath _ _ _ => true | _ => false end) (r_fields _ _ r).
-(* ModelfitResults.gradients_iterations left at its class default, the tuple (None,) *)
-Definition gradients_default (r : results jtbl jtbl) : bool :=
-  existsb (fun nf => String.eqb (fst nf) "gradients_iterations" &&
-                     match snd nf with FPlain _ _ (PTuple [PNone]) => true | _ => false end) (r_fields _ _ r).
 Definition rverdict (c : rcase) : list nat :=
   let r := rc_obj c in
   tag (opyv_same (option_map normalise (jenc r)) (rc_json c)) 40 ++
   tag (match rc_json c with Some j => oresults_same (jdec j) (rc_back c) | None => true end) 41 ++
   tag (rc_equal c) 42 ++
-  tag (results_supported jtbl jtbl r) 220 ++ tag (negb (has_path r)) 221 ++ tag (negb (gradients_default r)) 222.
+  tag (results_supported jtbl jtbl r) 220 ++ tag (negb (has_path r)) 221.
